@@ -19,13 +19,14 @@ type Scripted struct {
 	stdoutR *io.PipeReader
 	stderrR *io.PipeReader
 
-	exit     chan struct{}
-	exitOnce sync.Once
-	Kills    int32
-	Starts   int32
-	Cmd      *exec.Cmd
-	TmpDir   string
-	StartErr error
+	exit         chan struct{}
+	exitOnce     sync.Once
+	Kills        int32
+	RefusedKills int32 // Kill calls that arrived with a finished context
+	Starts       int32
+	Cmd          *exec.Cmd
+	TmpDir       string
+	StartErr     error
 	// Translate, when set, rewrites plugin addresses (PluginToHost).
 	Translate func(network, addr string) (string, string, error)
 	// OnStart runs in its own goroutine once Start was called.
@@ -72,6 +73,12 @@ func (s *Scripted) Exited() bool {
 
 func (s *Scripted) Wait(ctx context.Context) error { <-s.exit; return nil }
 func (s *Scripted) Kill(ctx context.Context) error {
+	// like a runner that talks to a container runtime or a remote agent: a request made with a context that is
+	// already done is not carried out
+	if err := ctx.Err(); err != nil {
+		atomic.AddInt32(&s.RefusedKills, 1)
+		return err
+	}
 	atomic.AddInt32(&s.Kills, 1)
 	s.Exit()
 	return nil
@@ -96,6 +103,16 @@ func (s *Scripted) RunnerFunc(launches *int32) func(hclog.Logger, *exec.Cmd, str
 		if launches != nil {
 			atomic.AddInt32(launches, 1)
 		}
+		s.Cmd = cmd
+		s.TmpDir = tmp
+		return s, nil
+	}
+}
+
+// ScriptedFactory returns a ClientConfig.RunnerFunc that asks mk for a fresh scripted runner at every launch.
+func ScriptedFactory(mk func() *Scripted) func(hclog.Logger, *exec.Cmd, string) (runner.Runner, error) {
+	return func(l hclog.Logger, cmd *exec.Cmd, tmp string) (runner.Runner, error) {
+		s := mk()
 		s.Cmd = cmd
 		s.TmpDir = tmp
 		return s, nil
